@@ -12,7 +12,7 @@ from qvm.memlayout import (
 )
 from .codegen import BaseCodeGen, BaseCode
 from .program import Label, LineNo, Program
-from .exceptions import InternalError
+from .exceptions import InternalError, CompileError, ErrorCode
 from .evalctx import Routine
 from .utils import Empty
 from . import stmt, expr
@@ -857,10 +857,15 @@ def gen_lvalue_ref(node, code, codegen):
 
 def gen_code_for_conv(to_type, node, code, codegen):
     assert isinstance(to_type, expr.Type)
-    assert not node.type.is_array
-    assert not node.type.is_user_defined
     assert not to_type.is_array
     assert not to_type.is_user_defined
+    if not node.type.is_coercible_to(to_type):
+        # e.g. an array, a record or a string where a number is needed
+        raise CompileError(
+            ErrorCode.TYPE_MISMATCH,
+            f'Type mismatch; expected {to_type.name.upper()}, got '
+            f'{node.type.name.upper()}',
+            node=node)
     if node.type != to_type:
         from_char = node.type.type_char
         to_char = to_type.type_char
@@ -872,6 +877,11 @@ def gen_code_for_cond(cond, code, codegen):
     # its value is non-zero (true) and 0 otherwise.  The value is compared
     # with zero in its own type: converting it to INTEGER first would
     # overflow for large values and round small fractions down to false.
+    if not cond.type.is_numeric:
+        raise CompileError(
+            ErrorCode.TYPE_MISMATCH,
+            'Condition must be a numeric expression',
+            node=cond)
     codegen.gen_code_for_node(cond, code)
     code.add((f'push{cond.type.type_char}', 0), ('cmp',), ('ne',))
 
